@@ -104,7 +104,7 @@ fn check_case(case: &Value, fmt: usize) -> Option<Value> {
     let init = &ops[0]["c"];
     let src = text(init, fmt).unwrap();
     std::fs::write(&path, &src).unwrap();
-    set_mtime(1);
+    set_mtime(2); // Reloader.tla starts at modification time 2 so that an edit can go back to 1
     let cfg = match log4rs::config::load_config_file(&path, mk()) {
         Ok(c) => c,
         Err(e) => return Some(json!({"step": 0, "what": "initial load failed", "error": e.to_string()})),
